@@ -82,8 +82,9 @@ def per_call_events(ev):
     return out
 
 
-def design_and_replay(rep, tier, prop, relevant, interrupts=False, kinds=None, pooled=False, idle=0):
-    r = tlc_run(rep, tier, interrupts, pooled=pooled, idle=idle)
+def design_and_replay(rep, tier, prop, relevant, interrupts=False, kinds=None, pooled=False, idle=0, r=None):
+    """r: the result of tlc_run() when the caller has already run the model (in the background)"""
+    r = r or tlc_run(rep, tier, interrupts, pooled=pooled, idle=idle)
     if not r.ok:
         rep.violation(f"{prop}/model/" + ",".join(r.invariants_violated),
                       "the as-coded model spec/Conn.tla violates the contract: " + ",".join(r.invariants_violated),
